@@ -24,8 +24,12 @@ def run(ck, progs):
                      "(which write one record per thread) or lies after the shutdown barrier, where all threads run the same rounds")
     ck.rule("C20.6", "multi-rank transfer: rank 0 expects from every other rank exactly the buffers that rank sends (global record, node "
                      "records, one block per thread) and writes them in the layout of its own records")
+    ck.rule("C20.7", "as many node records as thread records on every rank: in stats_on_gvt the per-thread record is written whenever a statistics "
+                     "file was requested and the node record under that same condition by the thread elected with `rid` — neither depends on the "
+                     "rank, the GVT value or the log level")
     for cfg, P in progs.items():
         _transfer(ck, P, cfg)
+        _parity(ck, P, cfg)
         _reader_writer(ck, P, cfg)
         _names(ck, P, cfg)
         _bumps(ck, P, cfg)
@@ -314,6 +318,48 @@ def _flush(ck, P, cfg):
             ck.holds("C20.4", "node-record-once", nd[0].where, "the node record of a round is written by thread 0 only", cfg)
         else:
             ck.violated("C20.4", "node-record-once", nd[0].where, "several threads write the node record of one round", cfg)
+
+
+def _dep_names(f, core):
+    """Names of the globals / fields a branch condition reads, with local temporaries resolved to their single definition."""
+    out = set()
+    todo = [core]
+    seen = set()
+    while todo:
+        n = todo.pop()
+        for x in n.walk():
+            if x.k == "DeclRefExpr" and x.d.get("sc") == "local" and x.did not in seen:
+                seen.add(x.did)
+                r = Q.resolve_local(f, x)
+                if r is not None and r is not x and not (r.k == "DeclRefExpr" and r.did == x.did):
+                    todo.append(r)
+                else:
+                    out.add("local:" + x.name)
+            elif x.k == "DeclRefExpr" and x.d.get("dk") == "var" and x.d.get("sc") != "local":
+                out.add(x.name)
+            elif x.k == "MemberExpr":
+                out.add(x.name)
+    return out
+
+
+def _parity(ck, P, cfg):
+    f = P.fn("stats_on_gvt")
+    wr = [c for c in f.calls("file_write_chunk") if "stats_cur" in X.show(X.callee_args(c)[1])]
+    nd = [c for c in f.calls("file_write_chunk") if "node" in X.show(X.callee_args(c)[0])]
+    ck.expect("C20.7", len(wr) + len(nd), 2, "record writes in stats_on_gvt")
+    for inst, calls, allowed, what in (("thread-record-always", wr, {"global_config", "stats_file"}, "the per-thread record"),
+                                       ("node-record-per-rank", nd, {"global_config", "stats_file", "rid"}, "the node record")):
+        for c in calls:
+            extra = None
+            for core, B in Q.deciding_branches(f, c):
+                names = _dep_names(f, core)
+                if names - allowed:
+                    extra = (core, sorted(names - allowed))
+            if extra:
+                ck.violated("C20.7", inst, extra[0].where, "%s of a round is written only if `%s` (depends on %s): ranks or rounds for which it is skipped end up with fewer "
+                            "of these records than the other kind, and the file no longer parses" % (what, X.show(extra[0])[:80], ", ".join(extra[1])), cfg)
+            else:
+                ck.holds("C20.7", inst, c.where, "%s is written on every rank in every round a statistics file was requested%s" % (what, " (by the thread with rid 0)" if "rid" in allowed else ""), cfg)
 
 
 def _rounds(ck, P, cfg):
